@@ -70,6 +70,7 @@ type SpecKnobs struct {
 	EjectionNear         bool   // EJECTION_BALANCE one or two increments below MAX_EFFECTIVE_BALANCE
 	SmallChurn           bool
 	WideDeposits         bool // MAX_DEPOSITS 16
+	SameMultiset         bool // SYNC_COMMITTEE_SIZE 32, period 2, shuffling on: with 16/32 validators at the maximum every committee is the whole registry in another order
 	ShortLeak            bool
 	SmallSweep           bool
 	SyncAtFork           bool // make a sync committee period boundary coincide with a fork epoch
@@ -261,6 +262,16 @@ func TinySpec(r *hx.Rng, k SpecKnobs) *common.Spec {
 	}
 	if k.WideDeposits {
 		sp.MAX_DEPOSITS = 16
+	}
+	if k.SameMultiset {
+		sp.SYNC_COMMITTEE_SIZE = 32
+		sp.EPOCHS_PER_SYNC_COMMITTEE_PERIOD = 2
+		if sp.SHUFFLE_ROUND_COUNT == 0 {
+			sp.SHUFFLE_ROUND_COUNT = 10
+		}
+		if sp.MIN_GENESIS_ACTIVE_VALIDATOR_COUNT > 16 {
+			sp.MIN_GENESIS_ACTIVE_VALIDATOR_COUNT = 16
+		}
 	}
 	if k.CommitteeDrop {
 		sp.MAX_COMMITTEES_PER_SLOT = 4
